@@ -5,6 +5,8 @@ INIT InitPairsSome
 NEXT Next
 INVARIANT RoundTrip
 INVARIANT SizeIsLength
+INVARIANT StreamRoundTrip
+INVARIANT BytesIsStreamPlusNoTrailing
 INVARIANT ExtensionSignedIffFee
 POSTCONDITION ExportPairsSome
 CHECK_DEADLOCK FALSE
